@@ -1,9 +1,13 @@
 #!/bin/bash
 # Re-run every kept seeded change against its property's check (quick tier by default): all must be CAUGHT.
+# usage: tools/seeded_regress.sh [tier] [Cxx ...]   (optional list restricts the run to those properties)
 cd "$(dirname "$0")/.."
 fail=0
+TIER=${1:-quick}; shift
+ONLY=" $* "
 for d in seeded/*/; do n=$(basename $d); P=${n%%-*}
-  r=$(/venv/bin/python tools/seedtest.py $P $d/patch.diff $d/demo.py --tier ${1:-quick} | python3 -c "
+  if [ "$ONLY" != "  " ] && [[ "$ONLY" != *" $P "* ]]; then continue; fi
+  r=$(/venv/bin/python tools/seedtest.py $P $d/patch.diff $d/demo.py --tier $TIER --seed ${SEED:-0} | python3 -c "
 import json,sys; r=json.load(sys.stdin); v=r['checks']['$P']; print(r.get('confirmed'), v['verdict'], (v['lines'][0] if v['lines'] else '')[:150])")
   echo "$n $r"; case "$r" in *CAUGHT*) ;; *) fail=1;; esac
 done
